@@ -50,6 +50,13 @@ def generate(seed, tier):
         if rng.random() < 0.4:
             block['ics'].append([an, repr(float(rng.randint(-9, 9)))])
     if S['swarm'].random() < 0.12:
+        # the other side of a flow: a variable defined as the negative of another, then used where operator precedence
+        # matters (power, unary minus, division) - a textual substitution must keep its value
+        tgt = pool[rng.randrange(len(pool))]
+        block['eqs'].append(['nb', rng.choice(['-%s', '- %s', '-1.0*%s', '-(%s)']) % tgt])
+        block['eqs'].append(['pz', rng.choice(['nb**2', '0.5*nb**2 + 1.0', '1.0/(1.0 + nb**2)', '3.0 - nb**2', 'nb*nb - nb',
+                                              '-nb**2', '2.0/(1.0 + nb*nb) - nb', '(nb)**2 - -nb'])])
+    if S['swarm'].random() < 0.12:
         # a reporting ratio nothing depends on, whose k=0 value cannot be computed from the time-zero constants
         # (denominator series starts at 0 / argument outside the domain): both twins must step over it at k=0
         block['exo'].append(['gz', '[0.0] + [%s]*%d' % (repr(rng.choice([2.0, 4.0, 0.5])), T + 2)])
